@@ -34,6 +34,8 @@ TRUSTED = [
     'C17: numpy dense linear algebra of the oracles (kron, matrix products, vdot)',
 ]
 ASSUMPTIONS = [
+    'index-container stream: the set of (function, container) combinations accepted by the unmodified tree is hard-coded '
+    '(active_indices / unoccupied as set and freeze_orbitals(occupied=None) are rejected there and not generated)',
     'band entries of the integrals are dyadic values 6e-5 .. 1.2e-7 (more than a decade above EQ_TOLERANCE = 1e-8); float32 inputs of '
     'the robust stream: tolerance 1e-5',
     'integrals are real dyadic rationals (float arithmetic exact); states have rational amplitudes; float comparisons at 1e-9 '
@@ -1099,6 +1101,133 @@ def dense_two_c(h2):
     return H
 
 
+# ----------------------------------------------------------------------------- (T) containers of the index arguments
+
+INDEX_KINDS = ['list', 'tuple', 'range', 'int64', 'int32', 'uint8', 'where', 'arange', 'npints', 'set', 'none']
+# accepted on the unmodified tree (probed once, hard-coded on purpose: a run-time probe would adapt to a modified tree):
+#   occupied_indices : every kind (None only when empty; not None for freeze_orbitals)
+#   active_indices   : every kind except set (numpy.ix_ rejects sets) and None
+#   unoccupied (freeze_orbitals) : every kind except set; None when empty
+OCC_KINDS = ['list', 'tuple', 'range', 'int64', 'int32', 'uint8', 'where', 'arange', 'npints', 'set', 'none']
+ACT_KINDS = ['list', 'tuple', 'range', 'int64', 'int32', 'uint8', 'where', 'arange', 'npints']
+FRZ_OCC_KINDS = ['list', 'tuple', 'range', 'int64', 'int32', 'uint8', 'where', 'arange', 'npints', 'set']
+FRZ_UNOCC_KINDS = ['list', 'tuple', 'range', 'int64', 'int32', 'uint8', 'where', 'arange', 'npints', 'none']
+
+
+def as_container(kind, l, universe):
+    """the index list `l` (increasing) as another container; None if that container cannot hold it"""
+    l = list(l)
+    contiguous = bool(l) and l == list(range(l[0], l[-1] + 1))
+    if kind == 'list':
+        return list(l)
+    if kind == 'tuple':
+        return tuple(l)
+    if kind == 'range':
+        return range(l[0], l[-1] + 1) if contiguous else (range(0) if not l else None)
+    if kind in ('int64', 'int32', 'uint8'):
+        return np.array(l, dtype=kind)
+    if kind == 'where':
+        return np.where(np.isin(np.arange(universe), l))[0]
+    if kind == 'arange':
+        return np.arange(l[0], l[-1] + 1) if contiguous else (np.arange(0) if not l else None)
+    if kind == 'npints':
+        return [np.int64(x) for x in l]
+    if kind == 'set':
+        return set(l)
+    if kind == 'none':
+        return 'NONE' if not l else None
+    raise AssertionError(kind)
+
+
+def stream_indices(ctx):
+    s = Stream('index-containers', '(T) occupied / active / unoccupied index arguments of get_active_space_integrals (function and '
+               'MolecularData method), get_molecular_hamiltonian and freeze_orbitals as list, tuple, range, numpy int64 / int32 / '
+               'uint8 arrays, numpy.where(..)[0], numpy.arange, lists of numpy integers, sets, empty containers and None (the '
+               'combinations the unmodified tree accepts are hard-coded), single-element cases [0] / array([0]) included: the '
+               'result must equal the list form exactly and pass the sector-matrix-element oracle; distinct = distinct '
+               '(integrals, partition, function, containers)')
+    of = ctx.of
+    from openfermion.ops.representations import interaction_operator as io
+    from openfermion.transforms import freeze_orbitals, get_fermion_operator, normal_ordered
+    rng = rng_for(ctx.seed, 'c17-indices')
+    N = budget(ctx.tier, 25, 200)
+    if ctx.drift:
+        N = max(N, 90)
+
+    def unwrap(x):
+        return None if isinstance(x, str) else x
+    for t in range(N):
+        n = rng.choice([2, 3, 3, 4])
+        one = sym2(rng, n)
+        two = sym8(rng, n)
+        nuc = rng.choice([0.0, 0.25])
+        mol = of.chem.MolecularData(geometry=[('H', (0, 0, 0)), ('H', (0, 0, 0.7))], basis='sto-3g', multiplicity=1,
+                                    charge=0, filename='/tmp/w/H/_c17_never_written')
+        mol.one_body_integrals, mol.two_body_integrals, mol.nuclear_repulsion = one.copy(), two.copy(), nuc
+        Hfull = molecular_dense(nuc, one, two)
+        full_fo = get_fermion_operator(mol.get_molecular_hamiltonian())
+        parts = [([0], [1]), ([0], list(range(1, n))), ([], list(range(n))), ([], [0])]
+        if n >= 3:
+            parts += [([0, 1], [2]), ([1], [0, 2]), ([0, 2], [1]), ([2], [0, 1])]
+        for occ, act in rng.sample(parts, min(len(parts), 4)):
+            ref = io.get_active_space_integrals(one.copy(), two.copy(), list(occ), list(act))
+            ref_op = mol.get_molecular_hamiltonian(list(occ), list(act))
+            idx, sgn = sector_embed(n, occ, act)
+            block = Hfull[np.ix_(idx, idx)] * np.outer(sgn, sgn)
+            occ_so = [2 * i + sg for i in occ for sg in range(2)]
+            virt_so = [2 * i + sg for i in range(n) if i not in occ and i not in act for sg in range(2)]
+            ref_fr = normal_ordered(freeze_orbitals(full_fo, list(occ_so), list(virt_so)))
+            for fn in ('get_active_space_integrals', 'MolecularData.get_active_space_integrals', 'get_molecular_hamiltonian',
+                       'freeze_orbitals'):
+                frz = fn == 'freeze_orbitals'
+                ko = rng.choice(FRZ_OCC_KINDS if frz else OCC_KINDS)
+                ka = rng.choice(FRZ_UNOCC_KINDS if frz else ACT_KINDS)
+                o = as_container(ko, occ_so if frz else occ, 2 * n)
+                a = as_container(ka, virt_so if frz else act, 2 * n)
+                if o is None or a is None:
+                    continue
+                c = {'fn': fn, 'n_spatial': n, 'one_body_integrals': one.tolist(), 'two_body_integrals': two.tolist(),
+                     'nuclear_repulsion': nuc, 'occupied_indices': occ, 'active_indices': act,
+                     'occupied_container': ko, 'active_container': ka}
+                s.case(c)
+                s.count('fn:' + fn)
+                s.count('occupied:' + ko + ('(empty)' if not occ else '(single)' if len(occ) == 1 else ''))
+                s.count('active:' + ka)
+                try:
+                    if fn == 'get_active_space_integrals':
+                        got = io.get_active_space_integrals(one.copy(), two.copy(), unwrap(o), unwrap(a))
+                    elif fn == 'MolecularData.get_active_space_integrals':
+                        got = mol.get_active_space_integrals(unwrap(o), unwrap(a))
+                    elif fn == 'get_molecular_hamiltonian':
+                        got = mol.get_molecular_hamiltonian(occupied_indices=unwrap(o), active_indices=unwrap(a))
+                    else:
+                        got = normal_ordered(freeze_orbitals(full_fo, unwrap(o), unwrap(a)))
+                except Exception as e:
+                    s.violate('%s(occupied as %s, active/unoccupied as %s) raised %s: %s' % (fn, ko, ka, type(e).__name__, e), c, {})
+                    continue
+                s.float_comparisons += 1
+                if fn in ('get_active_space_integrals', 'MolecularData.get_active_space_integrals'):
+                    same_ = (float(got[0]) == float(ref[0]) and exact_equal(got[1], ref[1]) and exact_equal(got[2], ref[2]))
+                    Hact = molecular_dense(nuc + float(got[0]), np.array(got[1], dtype=float), np.array(got[2]))
+                    orc = err(block - Hact) <= TOL
+                elif fn == 'get_molecular_hamiltonian':
+                    same_ = (got.constant == ref_op.constant and exact_equal(got.one_body_tensor, ref_op.one_body_tensor)
+                             and exact_equal(got.two_body_tensor, ref_op.two_body_tensor))
+                    m_ = len(act)
+                    Hop = got.constant * np.eye(4 ** m_, dtype=complex) + dense_one(got.one_body_tensor) + dense_two(got.two_body_tensor)
+                    orc = err(block - Hop) <= 1e-7
+                else:
+                    d_ = got - ref_fr
+                    same_ = max([abs(v) for v in d_.terms.values()] + [0.0]) == 0.0
+                    orc = True
+                if not same_:
+                    s.violate('%s: result for occupied as %s / active (unoccupied) as %s differs from the result for plain lists'
+                              % (fn, ko, ka), c, {})
+                elif not orc:
+                    s.violate('%s (%s / %s containers): sector matrix elements differ from the full Hamiltonian' % (fn, ko, ka), c, {})
+    return s
+
+
 # ----------------------------------------------------------------------------- entry points
 
 
@@ -1110,6 +1239,39 @@ def replay(ctx, payload):
     inp = v['input']
     of = ctx.of
     try:
+        if 'occupied_container' in inp:
+            from openfermion.ops.representations import interaction_operator as io
+            from openfermion.transforms import freeze_orbitals, get_fermion_operator, normal_ordered
+            n, occ, act, nuc = inp['n_spatial'], inp['occupied_indices'], inp['active_indices'], inp['nuclear_repulsion']
+            one, two = np.array(inp['one_body_integrals']), np.array(inp['two_body_integrals'])
+            mol = of.chem.MolecularData(geometry=[('H', (0, 0, 0)), ('H', (0, 0, 0.7))], basis='sto-3g', multiplicity=1,
+                                        charge=0, filename='/tmp/w/H/_c17_never_written')
+            mol.one_body_integrals, mol.two_body_integrals, mol.nuclear_repulsion = one.copy(), two.copy(), nuc
+            fn, frz = inp['fn'], inp['fn'] == 'freeze_orbitals'
+            occ_so = [2 * i + sg for i in occ for sg in range(2)]
+            virt_so = [2 * i + sg for i in range(n) if i not in occ and i not in act for sg in range(2)]
+            o = as_container(inp['occupied_container'], occ_so if frz else occ, 2 * n)
+            a = as_container(inp['active_container'], virt_so if frz else act, 2 * n)
+            o = None if isinstance(o, str) else o
+            a = None if isinstance(a, str) else a
+            idx, sgn = sector_embed(n, occ, act)
+            block = molecular_dense(nuc, one, two)[np.ix_(idx, idx)] * np.outer(sgn, sgn)
+            if fn in ('get_active_space_integrals', 'MolecularData.get_active_space_integrals'):
+                ref = io.get_active_space_integrals(one.copy(), two.copy(), list(occ), list(act))
+                got = (io.get_active_space_integrals(one.copy(), two.copy(), o, a) if fn == 'get_active_space_integrals'
+                       else mol.get_active_space_integrals(o, a))
+                Hact = molecular_dense(nuc + float(got[0]), np.array(got[1], dtype=float), np.array(got[2]))
+                return bool(float(got[0]) == float(ref[0]) and exact_equal(got[1], ref[1]) and exact_equal(got[2], ref[2])
+                            and err(block - Hact) <= TOL)
+            if fn == 'get_molecular_hamiltonian':
+                ref = mol.get_molecular_hamiltonian(list(occ), list(act))
+                got = mol.get_molecular_hamiltonian(occupied_indices=o, active_indices=a)
+                Hop = got.constant * np.eye(4 ** len(act), dtype=complex) + dense_one(got.one_body_tensor) + dense_two(got.two_body_tensor)
+                return bool(got.constant == ref.constant and exact_equal(got.one_body_tensor, ref.one_body_tensor)
+                            and exact_equal(got.two_body_tensor, ref.two_body_tensor) and err(block - Hop) <= 1e-7)
+            fo = get_fermion_operator(mol.get_molecular_hamiltonian())
+            d_ = normal_ordered(freeze_orbitals(fo, o, a)) - normal_ordered(freeze_orbitals(fo, list(occ_so), list(virt_so)))
+            return bool(max([abs(x) for x in d_.terms.values()] + [0.0]) == 0.0)
         if str(inp.get('fn', '')).endswith('(dense oracle)'):
             from openfermion.circuits import low_rank
             from openfermion.chem.molecular_data import spinorb_from_spatial
@@ -1291,5 +1453,5 @@ def run(ctx):
     # freeze_orbitals is anchored by C16 and C17 alike: its Model correspondence and Spec oracle
     # (unsorted / repeated orbital lists, prune, signs) live in harness/c16.py and run here as well
     import c16
-    return [stream_chemist(ctx), stream_lowrank(ctx), stream_integrals(ctx), stream_rdm(ctx), stream_robust(ctx),
+    return [stream_chemist(ctx), stream_lowrank(ctx), stream_integrals(ctx), stream_rdm(ctx), stream_robust(ctx), stream_indices(ctx),
             c16.stream_freeze(ctx)]
